@@ -188,3 +188,11 @@ Theorem C15_pin_statuses : seal_status_missing = 3 /\ seal_status_equal = 1 /\ s
 Proof. exact pin_seal_statuses. Qed.
 Theorem C15_pin_cli_exit_rules : seal_cli_exit_rules = [(2, false); (3, true)].
 Proof. exact pin_seal_cli_exit_rules. Qed.
+
+(* ---- source-text pins (generated by harness/pinsets.py) ---- *)
+(* every function of these modules is, text for text (comments and docstrings excluded), the one the models of this
+   property were written against and validated against: harness/translate/srcdigest_t.py, Src/Pin_*.v *)
+From OV Require Import Gen.SrcDigestGen Src.Pin_core_sealer Src.Pin_core_emitter Src.Pin_core_lexer Src.Pin_core_parser Src.Pin_cli_main.
+Theorem C15_pin_source_text :
+  src_core_sealer_pinned /\ src_core_emitter_pinned /\ src_core_lexer_pinned /\ src_core_parser_pinned /\ src_cli_main_pinned.
+Proof. exact (conj src_core_sealer_pinned_ok (conj src_core_emitter_pinned_ok (conj src_core_lexer_pinned_ok (conj src_core_parser_pinned_ok src_cli_main_pinned_ok)))). Qed.
